@@ -93,9 +93,67 @@ def jscan_stage(ctx, ths):
     return {"jscan_lines": len(lines), "jscan_functions": fns, "jscan_errors": sum(1 for x in a if x.startswith("err:")), "jscan_disagreements": len(idx)}
 
 
+def chararr_stage(ctx, ths):
+    """flatcc_json_parser_char_array / print_char_array called directly: the N-byte destination ends at a PROT_NONE page and is
+    preceded by a canary region; vs CharArray.lean. Independent oracle on the implementation: a successful call stored the first N
+    bytes of the unescaped string (Python's own unescaping for the plain / simple-escape subset), zero padded, and the printer's text
+    of an array parses back to the array."""
+    h = build_harness(ctx, "h_chararr", [os.path.join(VERIF, "harness/h_chararr.c")],
+                      [o for o in build_runtime_objs(ctx, tag="rtca", flags=["-O1", "-g", "-fsanitize=address", "-fno-omit-frame-pointer"]) if not o.endswith("json_printer.o")],
+                      flags=["-O1", "-g", "-fsanitize=address", "-fno-omit-frame-pointer", "-w"])
+    rc, o, e = sh([sys.executable, os.path.join(VERIF, "tools", "gen_chararr.py"), str(ctx.seed)])
+    lines = [l for l in o.split("\n") if l]
+    if ctx.quick():
+        lines = lines[::5]
+    rc, a, err = run_parallel(h, lines, 16, timeout=900)
+    rc, b, _ = run_parallel(FMODEL, lines, 16, timeout=900)
+    idx, a, b = diff_streams(lines, a, b)
+    spec = []
+    for i, (l, x) in enumerate(zip(lines, a)):
+        t = l.split(" ")
+        if x in ("err segv", "err write-outside") or x.startswith("<crash"):
+            spec.append((i, "char array parser wrote or read outside its buffers")); continue
+        if t[0] == "chararr" and x.startswith("ok "):
+            N, fl = int(t[1]), int(t[2]); text = bytes.fromhex(t[3]) if t[3] != "-" else b""
+            # independent reading for texts without escapes: "<plain>" + anything
+            m = re.match(rb'"([^"\\\x00-\x1f]*)"', text)
+            if m:
+                sbytes = m.group(1); got = bytes.fromhex(x.split(" ")[1]) if x.split(" ")[1] != "-" else b""
+                want = sbytes[:N] + b"\0" * max(0, N - len(sbytes))
+                if got != want: spec.append((i, "char array holds %r, the text says %r" % (got, want)))
+                elif len(sbytes) > N and not (fl & 1): spec.append((i, "overlong string accepted without skip_array_overflow"))
+                elif len(sbytes) < N and (fl & 2): spec.append((i, "short string accepted with reject_array_underflow"))
+    # printer -> parser on the implementation alone
+    r = ctx.rng
+    arrs = [bytes(r.choice(b'ab"\\\n\x00\x1f\x7f\xc3\xff') for _ in range(n)) for n in list(range(0, 10)) * 6]
+    rc, pt, _ = run_parallel(h, ["chararrp %s" % (x.hex() or "-") for x in arrs], 4)
+    rl = ["chararr %d %d %s" % (len(x), fl, t) for x, t in zip(arrs, pt) for fl in (0, 1)]
+    rc, ro, _ = run_parallel(h, rl, 4)
+    k = 0
+    for x, t in zip(arrs, pt):
+        for fl in (0, 1):
+            if not ro[k].startswith("ok " + (x.hex() or "-") + " "):
+                spec.append((None, "print->parse of char array %s gives %s (text %s)" % (x.hex(), ro[k], t)))
+            k += 1
+    if spec:
+        i, why = spec[0]
+        violation(ctx, "chararr_spec_%d.json" % ctx.seed, {"kind": "property-fails-on-implementation", "why": why, "op": lines[i] if i is not None else None,
+                  "c_output": a[i] if i is not None else None, "model_output": b[i] if i is not None else None, "count": len(spec), "stderr": err[-1500:]})
+    elif idx:
+        i = idx[0]
+        violation(ctx, "chararr_corr_%d.json" % ctx.seed, {"kind": "correspondence-broken", "engine": "chararr", "op": lines[i], "c_output": a[i], "model_output": b[i],
+                  "count": len(idx), "theorems_no_longer_tied": [t["name"] for t in ths if "char_array" in t["name"]]}, no_failing_input=True)
+    res = {}
+    for l, x in zip(lines, a):
+        k = "printed" if l.startswith("chararrp") else " ".join(x.split(" ")[:2]) if x.startswith("err") else x.split(" ")[0]
+        res[k] = res.get(k, 0) + 1
+    return {"chararr_lines": len(lines), "chararr_results": res, "chararr_disagreements": len(idx), "chararr_print_parse_roundtrips": len(rl)}
+
+
 def run(ctx):
     ths, results = c05.run(ctx, mutate=make_mutate(ctx.quick()), judge_extra=True)
     jcov = jscan_stage(ctx, ths)
+    jcov.update(chararr_stage(ctx, ths))
     bad = []
     nmut = nok = nerr = 0
     errs = {}
@@ -146,7 +204,9 @@ def run(ctx):
                 "token kind; random subsets of the five parser flags. Input copied to end exactly at a PROT_NONE page; ASan on the runtime; control text re-parsed "
                 "on the same builder every 50 mutants. Scanner units: 17 runtime scanner functions called directly on exact-length heap copies (grammar-derived JSON "
                 "nested to MAX_NEST+2, every truncation, whitespace runs of 0..33 before the end, numbers ending after - . e e+, strings ending inside escapes, random bytes; "
-                "flags incl. skip_unknown and unquoted state) vs JsonScan.lean: result position / error class / error location / more / line / pos must agree.",
+                "flags incl. skip_unknown and unquoted state) vs JsonScan.lean: result position / error class / error location / more / line / pos must agree. "
+                "Char arrays: flatcc_json_parser_char_array on N = 0..9,16,17 with every escape form starting with 0..3 bytes of room left, all four flag sets, "
+                "destination ending at a guard page with a canary in front, vs CharArray.lean; print_char_array -> char_array round trip on the implementation.",
         **jcov, "schemas": len(results), "mutants": nmut, "accepted": nok, "rejected": nerr, "error_codes": errs,
         "traces_validated_against_impl": nmut, "spec_oracle_failures": len(bad)})
     ctx.samples = []
